@@ -199,13 +199,7 @@ static void body_solution(int fn, int n, int m, int dim)
    e.ok = got && dim >= e.need;
    for(int j = 0; j < e.need; ++j) e.val[j] = x[j];
 #else
-   SoPlex* sp = &mem.sp;
-   sp->_hasSolReal = S.has_sol; sp->_hasSolRational = false;
-   new(&sp->_solReal._primal) VectorBase<double>(n);
-   new(&sp->_solReal._dual) VectorBase<double>(m);
-   new(&sp->_solReal._redCost) VectorBase<double>(n);
-   for(int j = 0; j < n; ++j) { sp->_solReal._primal[j] = S.v[j]; sp->_solReal._redCost[j] = S.v[j] - S.w[j]; }
-   for(int i = 0; i < m; ++i) sp->_solReal._dual[i] = S.w[i];
+   // the solution vectors of the raw object have been constructed by sol_cols(n) / sol_rows(m)
    e.ok = S.has_sol && dim >= e.need;
    for(int j = 0; j < e.need; ++j) e.val[j] = fn == 0 ? S.v[j] : fn == 1 ? S.w[j] : S.v[j] - S.w[j];
 #endif
@@ -220,13 +214,40 @@ static void body_solution(int fn, int n, int m, int dim)
    }
    free(buf);
 }
+// solver build: scripted solution of the raw object; primal and reduced costs have one entry per column, duals one per row.
+// Constructed once per level of the case split (not once per leaf): fewer heap objects, same concrete sizes on every path.
+static void sol_cols(int n)
+{
+#ifndef VP_NATIVE
+   SoPlex* sp = &mem.sp;
+   sp->_hasSolReal = S.has_sol; sp->_hasSolRational = false;
+   new(&sp->_solReal._primal) VectorBase<double>(n);
+   new(&sp->_solReal._redCost) VectorBase<double>(n);
+   for(int j = 0; j < n; ++j) { sp->_solReal._primal[j] = S.v[j]; sp->_solReal._redCost[j] = S.v[j] - S.w[j]; }
+#endif
+}
+static void sol_rows(int m)
+{
+#ifndef VP_NATIVE
+   SoPlex* sp = &mem.sp;
+   new(&sp->_solReal._dual) VectorBase<double>(m);
+   for(int i = 0; i < m; ++i) sp->_solReal._dual[i] = S.w[i];
+#endif
+}
 extern "C" void h_c20_get_solution()
 {
    setup(true, true);                     // numbers of rows and columns independent of each other
    int fn = vp_int_in(0, 2);
    int dim = vp_int_in(0, NMAX);          // smaller than, equal to and larger than the LP dimension
-   for(int n = 0; n <= NMAX; ++n) for(int m = 0; m <= NMAX; ++m) for(int d = 0; d <= NMAX; ++d)
-            if(S.n == n && S.m == m && dim == d) body_solution(fn, n, m, d);
+   for(int n = 0; n <= NMAX; ++n) if(S.n == n)
+      {
+         sol_cols(n);
+         for(int m = 0; m <= NMAX; ++m) if(S.m == m)
+            {
+               sol_rows(m);
+               for(int d = 0; d <= NMAX; ++d) if(dim == d) body_solution(fn, n, m, d);
+            }
+      }
    vp_cover(1);
 }
 
